@@ -19,14 +19,16 @@
 //   MV dst src mode                   move construction (0) / move assignment (1) dst = std::move(src); src is destroyed afterwards
 //   BA dst src                        static_cast<GaussianMixture&>(dst) = static_cast<const GaussianMixture&>(src)
 //   PE dst src                        dst += src
-//   PL dst a b                        dst = a + b
+//   PL dst a b                        dst = a + b   (a new object constructed from the returned value)
+//   PA dst a b                        dst = a + b   (assigned to the existing particle set in dst; dst may be a)
 //   WM s mode i j v  WC s mode i j k v  WW s mode i v  WS s mode i j v
 //                                     element writes; mode 0 element accessor, 1 through the block accessor,
 //                                     2 Gaussian's own accessor (i must be 0)
 //   FI s stamp                        recognisable value into every entry through mean(i), covariance(i), weight(i), state(i)
 //
 // Output: `ok <r> <dump> ; <r> <dump> ; ... ; END <dump> <dump> ...` — an operation that is not
-// applicable (empty slot, wrong class, zero components) prints `skip`.  Entries are printed as
+// applicable (empty slot, wrong class) prints `skip`.  Component, row and column indices of the element
+// accessors are parsed over the whole std::size_t range (strtoull) and handed to the library unchanged.  Entries are printed as
 // `0` (+0.0), a decimal integer (non-zero integral value below 2^31) or 16 hex digits.
 #include "common.hpp"
 #include <BayesFilters/GaussianMixture.h>
@@ -153,7 +155,7 @@ static std::string shp(Toks& t) {
             if (op == "C2") { k = t.nat(); l = t.nat(); }
             if (op == "C4") { k = t.nat(); l = t.nat(); c = t.nat(); q = t.flag(); }
             if (kind < 0 || kind > 2) throw vh::BadArgs("kind");
-            if (k < 1) skip = true;
+            if (k < 0) skip = true;      // 0 components are legal: empty storage
             else {
                 GaussianMixture* n = nullptr;
                 if (op == "D") n = kind == GM ? new GaussianMixture() : kind == GA ? (GaussianMixture*)new Gaussian() : (GaussianMixture*)new ParticleSet();
@@ -178,7 +180,7 @@ static std::string shp(Toks& t) {
         } else if (op == "RS" || op == "R2") {
             // on a Gaussian this is the inherited virtual GaussianMixture::resize (through the base pointer)
             dst = slot(t.nat()); long k = t.nat(), l = t.nat(), c = (op == "RS") ? t.nat() : 0;
-            if (!pool[dst].p || k < 1) skip = true;
+            if (!pool[dst].p || k < 0) skip = true;
             else if (op == "RS") pool[dst].p->resize(k, l, c);
             else pool[dst].p->resize(k, l);
         } else if (op == "GR" || op == "G1") {
@@ -189,11 +191,11 @@ static std::string shp(Toks& t) {
         } else if (op == "AU") {
             dst = slot(t.nat()); long qr = t.nat(), qc = t.nat();
             MatrixXd Q = t.mat(qr, qc);
-            if (!pool[dst].p || pool[dst].p->components < 1) skip = true;
+            if (!pool[dst].p) skip = true;   // on 0 components: Eigen assertion (`components - 1` wraps)
             else ret = pool[dst].p->augmentWithNoise(Q) ? "t" : "f";
         } else if (op == "AA") {
-            dst = slot(t.nat()); long i = t.nat();
-            if (!pool[dst].p || pool[dst].p->components < 1) skip = true;
+            dst = slot(t.nat()); std::size_t i = t.unat();
+            if (!pool[dst].p) skip = true;
             else ret = pool[dst].p->augmentWithNoise(pool[dst].p->covariance(i)) ? "t" : "f";
         } else if (op == "MV") {
             dst = slot(t.nat()); long src = slot(t.nat()); long mode = t.nat();
@@ -223,26 +225,31 @@ static std::string shp(Toks& t) {
             dst = slot(t.nat()); long a = slot(t.nat()), b = slot(t.nat());
             if (!pool[a].p || !pool[b].p || pool[a].kind != PS || pool[b].kind != PS) skip = true;
             else { ParticleSet* n = new ParticleSet(pool[a].ps() + pool[b].ps()); pool[dst].p.reset(n); pool[dst].kind = PS; }
+        } else if (op == "PA") {
+            // dst = a + b into an existing particle set: (move) assignment of the value operator+ returns
+            dst = slot(t.nat()); long a = slot(t.nat()), b = slot(t.nat());
+            if (!pool[a].p || !pool[b].p || pool[a].kind != PS || pool[b].kind != PS || !pool[dst].p || pool[dst].kind != PS) skip = true;
+            else pool[dst].ps() = pool[a].ps() + pool[b].ps();
         } else if (op == "WM") {
-            dst = slot(t.nat()); long mode = t.nat(), i = t.nat(), j = t.nat(); double v = t.dbl();
+            dst = slot(t.nat()); long mode = t.nat(); std::size_t i = t.unat(), j = t.unat(); double v = t.dbl();
             if (!pool[dst].p || (mode == 2 && (pool[dst].kind != GA || i != 0))) skip = true;
             else if (mode == 0) pool[dst].p->mean(i, j) = v;
             else if (mode == 1) pool[dst].p->mean(i)(j) = v;
             else pool[dst].ga().mean(j) = v;
         } else if (op == "WC") {
-            dst = slot(t.nat()); long mode = t.nat(), i = t.nat(), j = t.nat(), k = t.nat(); double v = t.dbl();
+            dst = slot(t.nat()); long mode = t.nat(); std::size_t i = t.unat(), j = t.unat(), k = t.unat(); double v = t.dbl();
             if (!pool[dst].p || (mode == 2 && (pool[dst].kind != GA || i != 0))) skip = true;
             else if (mode == 0) pool[dst].p->covariance(i, j, k) = v;
             else if (mode == 1) pool[dst].p->covariance(i)(j, k) = v;
             else pool[dst].ga().covariance(j, k) = v;
         } else if (op == "WW") {
-            dst = slot(t.nat()); long mode = t.nat(), i = t.nat(); double v = t.dbl();
+            dst = slot(t.nat()); long mode = t.nat(); std::size_t i = t.unat(); double v = t.dbl();
             if (!pool[dst].p || (mode == 2 && (pool[dst].kind != GA || i != 0))) skip = true;
             else if (mode == 0) pool[dst].p->weight(i) = v;
             else if (mode == 1) pool[dst].p->weight()(i) = v;
             else pool[dst].ga().weight() = v;
         } else if (op == "WS") {
-            dst = slot(t.nat()); long mode = t.nat(), i = t.nat(), j = t.nat(); double v = t.dbl();
+            dst = slot(t.nat()); long mode = t.nat(); std::size_t i = t.unat(), j = t.unat(); double v = t.dbl();
             if (!pool[dst].p || pool[dst].kind != PS) skip = true;
             else if (mode == 0) pool[dst].ps().state(i, j) = v;
             else pool[dst].ps().state(i)(j, 0) = v;
